@@ -205,9 +205,16 @@ func handleExceptionSignal(vm *r.VM, blockModule *r.Module, blockDepth int, catc
 			exception = value.NewException(e.Error())
 		case *value.Exception:
 			exception = e
-		default:
+		case *zerr.SemanticError:
+			// failing built-in operations that report their own kind of error (text
+			// formatting: malformed template, placeholder / argument mismatch)
+			exception = value.NewException(e.Error())
+		case *zerr.Signal, *zerr.SyntaxError, *zerr.IOError:
 			// so, if the blockErr is not an exception at all, return it directly
 			return nil, realErr
+		default:
+			// ... or a plain Go error (e.g. a numeric directive applied to a text)
+			exception = value.NewException(realErr.Error())
 		}
 	}
 
